@@ -80,7 +80,13 @@ def real(case):
             lim = None
             if case['limits']:
                 lim = os.path.join(d, 'limits.dat')
-                np.savetxt(lim, np.array([len(t) for t in case['trajs']]), fmt='%d')
+                lens_ = [len(t) for t in case['trajs']]
+                if len(lens_) >= 2:
+                    # the SAME limits path first holds another partition of the same number of frames and is read once (a reader that remembers what a
+                    # path contained would now be stale)
+                    np.savetxt(lim, np.array([lens_[0] + lens_[1]] + lens_[2:]), fmt='%d')
+                    core.call(lambda: mh.opentxt_limits(f, limits_file=lim, dtype=np.int64))
+                np.savetxt(lim, np.array(lens_), fmt='%d')
                 args += ['-c', lim]
             outf = os.path.join(d, 'out.dat') if case['outname'] else f + '.dyncor%df' % case['tau']
             if case['outname']:
@@ -107,7 +113,11 @@ def real(case):
             lim = None
             if case['limits']:
                 lim = os.path.join(d, 'limits.dat')
-                np.savetxt(lim, np.array([len(p) for p in case['data']]), fmt='%d')
+                lens_ = [len(p) for p in case['data']]
+                if len(lens_) >= 2:
+                    np.savetxt(lim, np.array([lens_[0] + lens_[1]] + lens_[2:]), fmt='%d')
+                    core.call(lambda: mh.opentxt_limits(f, limits_file=lim))
+                np.savetxt(lim, np.array(lens_), fmt='%d')
                 args += ['-c', lim]
             outf = os.path.join(d, 'filtered.dat')
             args += ['-o', outf]
@@ -119,6 +129,11 @@ def real(case):
                 parts = mh.opentxt_limits(f, limits_file=lim, dtype=np.float32)
                 if parts[0].ndim == 1:
                     parts = [p.reshape(-1, 1) for p in parts]
+                if case['limits']:
+                    # the pieces are cut by THIS harness at the lengths it wrote into the limits file (not by the reader under test)
+                    whole = np.vstack(parts)
+                    cuts_ = np.cumsum([len(p) for p in case['data']])[:-1]
+                    parts = np.split(whole, cuts_)
                 exp = np.vstack([mh.utils.filtering.gaussian_filter(p, sigma=case['sigma']) for p in parts])
                 text = [l for l in open(outf).read().split('\n') if l and not l.startswith('#')]
                 exp_text = [' '.join('%.5f' % v for v in row) for row in exp]
